@@ -17,6 +17,14 @@ CHECKS = {
    technique="explicit-state BFS over histories with a bouncing, ledger-keeping Hal; per-step comparison of the exact multiset of share/unshare calls and of buffer contents",
    text="Same exploration as C01 on a platform layer that bounces every buffer to a distinct device address: each step's share/unshare calls must be exactly those the property prescribes (arguments included), every address the device is given must resolve in the ledger, and device-written bytes must reach the caller's buffers exactly at pop_used.",
    note="Trusts LabHal (lab/src/hal.rs)."),
+ "C05": dict(level="model_checking", design="DESIGN.md §4 C05",
+   technique="exhaustive sweep of the notification predicate over all (avail_idx, avail_event) pairs against the specification's vring_need_event; BFS histories with interrupt-suppression operations; exhaustive DFS co-simulation of blocking helpers over device servicing policies (device runs inside notify and inside the busy-wait hook)",
+   text="should_notify() on the real queue is compared with the specification's predicate for every 16-bit index pair (thorough: all 2^32 pairs per queue size; quick: all 2^16 indices x a window of events and boundary values) and every batch size up to the queue size; the device-visible interrupt-suppression state is checked after every step of every explored history; blocking helpers are run against notify-only, polling and late devices with a livelock horizon.",
+   note="Trusts vring_need_event as transcribed from the specification, the spin hook (H2) and the warp hook (H3). Hardware store->load ordering is not visible to an SC explorer."),
+ "C06": dict(level="exploration", design="DESIGN.md §4 C06",
+   technique="complete enumeration of the finite configuration space (sizes x layouts x flags x transport answers) on the real VirtQueue::new/Drop with a ledger-keeping Hal",
+   text="Every power-of-two size 1..32768, modern and legacy layout, all 8 flag combinations, both queue_used answers and all relevant max_queue_size answers: the queue_set arguments, the DMA ledger and the registered memory are checked for alignment, extent, disjointness, containment in live DMA memory of a permitting direction, zeroed rings, legacy placement, refusal without side effects and exact release on drop.",
+   note="Behaviour depends on max_queue_size only through max<N, so large sizes use boundary representatives (stated in the evidence)."),
 }
 
 NOT_YET = "check not built yet in this round (machinery under construction; see DESIGN.md)"
